@@ -35,7 +35,7 @@ def specs_for(ctx):
                       "build": {"limit": "inf", "fit": rng.choice(["dlite", "taubinSVD"])}, "solve": {"method": "default"},
                       "pressure": True, "require_conditioned": tissue["kind"] == "equilibrium",
                       # a fifth of the pairs transform the live objects in place between two analyses instead of rebuilding
-                      "inplace": (not simB["reflect"]) and rng.random() < 0.25})
+                      "inplace": (not simB["reflect"]) and rng.random() < 0.4})
     # dynamic inference with adimensional velocities: the same series in two unit systems (time x alpha, length x beta)
     for i in range(ctx.pick(40, 1500)):
         nframes = rng.choice([2, 3, 4])
